@@ -67,6 +67,15 @@ package syncer
 //@   properties C01
 //@   modifies nothing
 
+//@ func config.RedisConfig.IsCluster
+//@   trusted frame: reads its receiver only
+
+//@ func handleDirectError
+//@   arith int
+//@   properties C07 C19
+//@   modifies nothing
+//@   ensures never_swallows: err != nil ==> result != nil
+
 //@ func RedisOutput.sendCounterAdd
 //@   arith int
 //@   properties C01
@@ -223,6 +232,7 @@ package syncer
 //@   requires nonnil: ro != nil && conn != nil && replayWait != nil
 //@   modifies heap, bLen, bFirst, bLast, bCpPuts, bCp, bCpPos, tCpHigh, cpArmed, pending
 //@   chan sendBuf: increasing: recv.Offset > lastOffset && recv.Offset >= 0
+//@   chan sendBuf: no_nested_multi: recv.Cmd == "multi" ==> txnStatus != txnStatusBegin && txnStatus != txnStatusIn
 //@   set pending = lastOffset after store lastOffset
 //@   set pending = 0 - 1 after store cmdQueue
 //@   set pending = 0 - 1 after store inTransaction
@@ -234,5 +244,5 @@ package syncer
 //@   loop 1:
 //@     invariant high: tCpHigh <= lastOffset && cpArmed == 0
 //@     invariant status: txnStatus >= txnStatusNo && txnStatus <= txnStatusCommit
-//@     invariant txn: inTransaction ==> (transactionMode && (txnStatus == txnStatusBegin || txnStatus == txnStatusIn))
+//@     invariant txn: inTransaction ==> (transactionMode && !needFlush && (txnStatus == txnStatusBegin || txnStatus == txnStatusIn))
 //@     invariant queue: queueClean(cmdQueue)
